@@ -136,6 +136,28 @@ def replay_fit(vals, label):
     y = m.integrate(t)[1:, 1]
     bad = {}
     L = SquareLoss(th, m, x0, 0.0, t, y, "J")
+    # (i) the counter-model's box through the real fit, the real optimiser replaced by a plain recorder:
+    #     what fit hands over must be the user's (lb_i, ub_i) pairs
+    from pygom.loss import base_loss
+    nvar = 2
+    have_lb = all(("lb%d" % i) in vals for i in range(nvar))
+    have_ub = all(("ub%d" % i) in vals for i in range(nvar))
+    if have_lb or have_ub:
+        lbv = np.array([float(vals["lb%d" % i]) for i in range(nvar)]) if have_lb else None
+        ubv = np.array([float(vals["ub%d" % i]) for i in range(nvar)]) if have_ub else None
+        startv = np.array([float(vals.get("start%d" % i, 0.3)) for i in range(nvar)])
+        seen = {}
+
+        def recorder(fun=None, x0=None, jac=None, bounds=None, **kw):
+            seen["bounds"] = [tuple(b) for b in bounds]
+            return {"x": x0, "success": True}
+        with stubs.patched((base_loss, "minimize", recorder)):
+            L.fit(startv, lbv, ubv)
+        for i, b in enumerate(seen.get("bounds", [])):
+            want = (None if lbv is None else float(lbv[i]), None if ubv is None else float(ubv[i]))
+            got = tuple(None if v is None else float(v) for v in b)
+            if got != want:
+                bad["bounds_handed_to_optimiser[%d]" % i] = {"got": got, "user": want}
     lb, ub = np.array([0.05, 0.1]), np.array([0.5, 1.5])
     r = L.fit(np.array(th), lb, ub)
     if np.max(np.abs(np.asarray(r) - np.array(th))) > 1e-4:
